@@ -1,7 +1,7 @@
 """Per-property configuration of ./check: theorem modules, expected theorem names, suites, projections."""
 
 NOT_APPLICABLE = {}
-HOOK_COMMITS = []
+HOOK_COMMITS = ["4cf513d"]
 
 LEVEL_NOTE_SRV = ("Theorems are about the sequential Lean model of the C2S server (one request handled to quiescence at a time); "
                   "the model is tied to /repo by running the real server in-process on the same histories (srv/acl suites) and by "
@@ -195,3 +195,27 @@ PROPS["C02"]["expect_theorems"] += ["Narwhal.Writer.C15_bytes_are_frames", "Narw
 PROPS["C02"]["audit_files"] += ["Narwhal/Model/Writer.lean"]
 PROPS["C02"]["suites"]["writer"] = {"kind": "lines", "nvh_suite": "writer", "driver_suite": "writer", "op_prefixes": ["frames", "wav", "overflow"],
                                     "cases": {"quick": 60, "thorough": 1500}, "oracle_tags": ["C15", "C02"]}
+
+PROPS["C19"] = {
+    "theorems": ["Narwhal.Theorems.C19"],
+    "audit_files": ["Narwhal/Model/Pool.lean"],
+    "expect_theorems": ["Narwhal.Pool.inv_step", "Narwhal.Pool.excl_step", "Narwhal.Pool.C19_run_safe", "Narwhal.Pool.C19_exclusive",
+                        "Narwhal.Pool.C19_pop_never_panics", "Narwhal.Pool.C19_conservation", "Narwhal.Pool.C19_all_back",
+                        "Narwhal.Pool.C19_waits_only_when_empty", "Narwhal.Pool.C19_choose_ok"],
+    "suites": {"pool": {"kind": "lines", "nvh_suite": "pool", "driver_suite": "pool", "op_prefixes": ["pool ", "bpool ", "cpool "],
+                        "cases": {"quick": 300, "thorough": 6000}, "oracle_tags": ["C19"]}},
+    "rule": "random sequences of acquire / freeze / clone / drop / batch release on real Pools of 1..5 buffers with stamped contents; random bucket "
+            "geometries (min, growth 2-4, non-bucket maxima, budgets 1..10^6, caps) and the payload pool ConnManager::new builds for limits incl. "
+            "1, 255-257, 300, 1000, 5000, 70000 with budgets down to 1 byte; selection probed under partial exhaustion; distinct = distinct observations",
+    "trusted_base": ["modelled, not verified: util/src/pool.rs; the step granularity (one ArrayQueue or Semaphore operation per step) is an assumption about "
+                     "those lock-free containers (crossbeam ArrayQueue, tokio Semaphore are trusted to be linearizable)",
+                     "bytes of a shared buffer cannot change because only MutablePoolBuffer exposes &mut [u8] (Rust's type system; pool.rs has no unsafe)"],
+    "level_text": "Proved in Lean over every schedule of the pool's micro-steps (any number of tasks/threads interleaving acquire, freeze, clone, drop and "
+                  "batch release): a buffer id is in exactly one of {available queue, one mutable holder, one shared group}; permits + holders = capacity, "
+                  "so pop().unwrap() never sees an empty queue; available + in-use = capacity; with no holder left every buffer and permit is back; an "
+                  "acquirer is refused a permit only when none exists, which at rest means the queue is empty; bucket selection returns a large-enough "
+                  "bucket iff one exists. Tied by op-by-op counter comparison and content stamping on the real pools, and geometry comparison through the "
+                  "narwhal_verif hook.",
+    "level_note": "Thread-level atomicity of ArrayQueue/Semaphore is trusted; connection life cycles returning all buffers are exercised by the limits suite (C14).",
+    "assumptions": ["each ArrayQueue / Semaphore call is atomic"],
+}
